@@ -97,6 +97,9 @@ def _scalar_term(v):
 
 def eq(a: V, b: V):
     """Python `a == b` as a z3 Bool."""
+    from .ty import VSet
+    if isinstance(a, VSet) or isinstance(b, VSet):
+        raise Unsupported("== on a symbolic set (only membership is modelled; use same_members in specs)")
     if isinstance(a, VConst) and not isinstance(b, VConst):
         a = _lift_const(a)
     if isinstance(b, VConst) and not isinstance(a, VConst):
@@ -122,6 +125,8 @@ def eq(a: V, b: V):
             a, b = b, a
         if isinstance(b, VNone):
             return a.isnone
+        if isinstance(b, VAny):
+            return to_val(a) == b.t  # a dynamic value may itself be None
         if isinstance(b, VOpt):
             return z3.Or(z3.And(a.isnone, b.isnone), z3.And(z3.Not(a.isnone), z3.Not(b.isnone), eq(a.val, b.val)))
         return z3.And(z3.Not(a.isnone), eq(a.val, b))
